@@ -265,6 +265,8 @@ def run(ctx):
     rule5_wrapper(ctx)
     for fl in flavours(ctx):
         ctx.unit = fl
+        ctx.doc('C06.7', 'native API forwarding: each public entry point of this property reaches the implementation of the same name with its parameters in order and returns its result (sibling slips such as trylock -> lock, signal -> broadcast, swapped arguments)')
+        lib.native_forwarding(ctx, 'C06.7', fl, lambda n: n.startswith(('myth_barrier_', 'myth_barrierattr_')), floor=4)
         rule_init_complete(ctx, fl)
         v = ctx.view(NATIVE, roots=['myth_barrier_wait_body', 'myth_wake_many_from_stack', 'myth_block_on_stack'],
                      stops=('myth_sleep_stack_pop', 'myth_sleep_stack_push', 'myth_queue_push', 'myth_queue_pop'), flavour=fl)
@@ -277,6 +279,8 @@ def run(ctx):
 SYNC = 'src/myth_sync_func.h'
 SQ = 'src/myth_sleep_queue_func.h'
 MUTANTS = [
+    {'name': 'native myth_barrier_wait drops the serial-thread result', 'expect': 'C06.7',
+     'edits': [('src/myth_if_native.c', "  return myth_barrier_wait_body(barrier);", "  myth_barrier_wait_body(barrier);\n  return 0;")]},
     {'name': 'stack wake chain: tail advances only for the first sleeper', 'expect': 'C06.2',
      'edits': [(SYNC, "      to_wake = myth_sleep_stack_pop_th(s);\n    }\n    to_wake->env = env;\n    to_wake->next = 0;\n    if (to_wake_tail) {\n      to_wake_tail->next = to_wake;\n    } else {\n      to_wake_head = to_wake;\n    }\n    to_wake_tail = to_wake;",
                 "      to_wake = myth_sleep_stack_pop_th(s);\n    }\n    to_wake->env = env;\n    to_wake->next = 0;\n    if (to_wake_tail) {\n      to_wake_tail->next = to_wake;\n    } else {\n      to_wake_head = to_wake;\n      to_wake_tail = to_wake;\n    }")]},
